@@ -1,3 +1,17 @@
--- stub: the driver of C10 is not built yet
 import WmModel.Basic
-def main : IO Unit := Wm.driverMain (fun _ => "bad-op")
+import WmModel.RouterMon
+import WmModel.RouterConf
+open Wm
+
+/-- `trace …` requests: M = conformance of the recorded trace with RouterLife (RouterConf), P = the C10 monitor. -/
+def handle (line : String) : String :=
+  let (req, _obs) := match line.splitOn " ## " with
+    | [r, o] => (r, o)
+    | _ => (line, "")
+  match req.splitOn " " with
+  | "M" :: "trace" :: toks => RouterConf.check toks
+  | "S" :: "trace" :: toks => RouterConf.stats toks
+  | "P" :: "trace" :: toks => RouterMon.runMon RouterMon.monC10 toks
+  | _ => "bad-op"
+
+def main : IO Unit := driverMain handle
